@@ -50,15 +50,19 @@ var alphabet = []sym{
 }
 
 type cfg struct {
-	seq      []int
-	consumer string // prompt | late
-	cancel   bool
+	seq       []int
+	consumer  string // prompt | late
+	cancel    bool
+	noWatcher bool // the environment refuses a watcher (inotify instance limit, no file descriptors left)
 }
 
 func (c cfg) name() string {
 	var s []string
 	for _, i := range c.seq {
 		s = append(s, alphabet[i].name)
+	}
+	if c.noWatcher {
+		return fmt.Sprintf("[no watcher can be created] consumer=%s cancel=%v", c.consumer, c.cancel)
 	}
 	return fmt.Sprintf("[%s] consumer=%s cancel=%v", strings.Join(s, ", "), c.consumer, c.cancel)
 }
@@ -68,6 +72,9 @@ func scenario(c cfg) func() {
 		os.WriteFile(dir+"a.toml", []byte("collision_mode = \"interrupt\"\n"), 0o644) // the same starting point for every execution
 		var w *fsnotify.Watcher
 		fsnotify.VerifNewWatcher = func() (*fsnotify.Watcher, error) {
+			if c.noWatcher {
+				return nil, fmt.Errorf("too many open files")
+			}
 			w = &fsnotify.Watcher{Events: make(chan fsnotify.Event), Errors: make(chan error), Done: make(chan struct{})}
 			vsched.Name(w.Events, "watcher.Events")
 			vsched.Name(w.Done, "watcher.done")
@@ -191,7 +198,7 @@ func check(c cfg) func(x *vsched.Execution) []vsched.Violation {
 				if o.Kind == "cancel" {
 					cancelled = true
 				}
-				if o.Kind == "quiescent" && !cancelled && !readerIdle {
+				if o.Kind == "quiescent" && !cancelled && !readerIdle && !c.noWatcher {
 					return []vsched.Violation{{"watcher-stalls-the-library", "errors-not-consumed", "everything is quiescent, nothing was cancelled, and the fsnotify reader is still blocked handing over an event or error: later file modifications can never be noticed"}}
 				}
 			case "stream-closed":
@@ -259,7 +266,10 @@ func main() {
 	rec = func(seq []int) {
 		for _, cons := range []string{"prompt", "late"} {
 			for _, can := range []bool{false, true} {
-				cfgs = append(cfgs, cfg{append([]int{}, seq...), cons, can})
+				cfgs = append(cfgs, cfg{append([]int{}, seq...), cons, can, false})
+				if len(seq) == 0 {
+					cfgs = append(cfgs, cfg{nil, cons, can, true})
+				}
 			}
 		}
 		if len(seq) == maxLen {
